@@ -63,7 +63,9 @@ C03Checks(e) ==
   LET pos == PosOfJson(e.pos)
       L == Legal(pos)
       okOne(s) == LET m == MoveOfJson(s.m) IN
-                  m \in L => (s.res = "ok" /\ PosOfJson(s.pos) = ApplyMove(pos, m))
+                  m \in L => (s.res = "ok" /\ PosOfJson(s.pos) = ApplyMove(pos, m)
+                               \* the other appliers (Unchecked, TryUnchecked, make_raw) produce the same board
+                               /\ (("same_by_other_appliers" \in DOMAIN s) => s.same_by_other_appliers))
   IN IF Has(e, "panic") THEN {<<"panic", FALSE>>} ELSE
      {<<"succ", \A i \in 1..Len(e.succ) : okOne(e.succ[i])>>,
       <<"succ_covers_legal", L \subseteq {MoveOfJson(e.succ[i].m) : i \in 1..Len(e.succ)}>>}
@@ -326,7 +328,10 @@ FenChecks(e) ==
    <<"library_reparse_same_position", e.reparsed.ok /\ PosOfJson(e.reparsed.pos) = pos>>,
    <<"raw_reparse_same_position", e.reparsed_raw.ok /\ PosOfJson(e.reparsed_raw.pos) = pos>>,
    <<"input_in_scope", IF e.kind = "board" THEN IsValid(pos)
-                       ELSE (pos.ep = -1 \/ RankOf(pos.ep) = EpSrcRank(pos.side))>>}
+                       ELSE (pos.ep = -1 \/ RankOf(pos.ep) = EpSrcRank(pos.side))>>,
+   \* (beyond the listed property: the pretty-printer of the same board, both styles)
+   <<"pretty_text", ("pretty_ascii" \in DOMAIN e) =>
+                       (e.pretty_ascii = PrettyText(pos, FALSE) /\ e.pretty_utf8 = PrettyText(pos, TRUE))>>}
 
 FenParseChecks(e) ==
   LET rd == FenRead(e.text) IN
@@ -558,6 +563,14 @@ UciListChecks(e) ==
    <<"uci_list_text", ("panic" \in DOMAIN e) \/ e.text = JoinWith([i \in 1..Len(ms) |-> UciOf(ms[i])], <<32>>, 1)>>,
    <<"uci_list_rebuilds_equal_chain", ("panic" \in DOMAIN e) \/ e.rebuilt_eq>>}
 
+TOutcomesChecks(e) ==
+  LET RS == {e.rows[i] : i \in 1..Len(e.rows)} IN
+  {<<"all_outcomes_covered", {x.o : x \in RS} = AllOutcomes>>,
+   <<"outcome_display", \A x \in RS : x.text = OutcomeText(x.o) /\ x.status = GameStatusText(x.o)>>,
+   <<"winner_and_force", \A x \in RS : x.winner = (IF x.o[1] = "win" THEN x.o[2] ELSE -1) /\ x.is_force = IsForcedOutcome(x.o)>>,
+   <<"passes_filter", \A x \in RS : x.passes = <<OutcomePasses(x.o, "force"), OutcomePasses(x.o, "strict"), OutcomePasses(x.o, "relaxed")>>>>,
+   <<"status_of_running_game", e.running = GameStatusText(<<"none">>)>>}
+
 BBBinaryChecks(e) ==
   {<<"binary_set_algebra",
       \A i \in 1..Len(e.rows) : LET r == e.rows[i]  x == SeqToSet(r[1])  y == SeqToSet(r[2]) IN
@@ -600,6 +613,7 @@ EventChecks(e) ==
     [] e.ev = "bb_unary" -> BBUnaryChecks(e)
     [] e.ev = "bb_deposit" -> BBDepositChecks(e)
     [] e.ev = "bb_iter" -> BBIterChecks(e)
+    [] e.ev = "t_outcomes" -> TOutcomesChecks(e)
     [] e.ev = "ucilist" -> UciListChecks(e)
     [] e.ev = "fen" -> FenChecks(e)
     [] e.ev = "fenparse" -> FenParseChecks(e)
